@@ -6,6 +6,17 @@ open Lean Wire Carve
 
 namespace DriverCarve
 
+def optRatJ (j : Json) : R (Option Rat) :=
+  match j with
+  | Json.null => pure none
+  | v => do pure (some (← parseRat (← v.getStr?)))
+
+/-- `rank_oracle`: `[[train rates], [dev rates], bool]` triples -/
+def oracleJ (j : Json) : R (List ((List (Option Rat) × List (Option Rat)) × Bool)) := listJ (fun p => do
+  let a ← p.getArr?
+  if h : a.size = 3 then pure ((← listJ optRatJ a[0], ← listJ optRatJ a[1]), ← a[2].getBool?)
+  else throw "bad oracle entry") j
+
 def cfgJ (j : Json) : R Cfg := do
   let kind ← match ← strF j "kind" with
     | "binary" => pure Kind.binary
@@ -20,7 +31,10 @@ def cfgJ (j : Json) : R Cfg := do
          dropna := ← boolF j "dropna",
          sortGroupsByLabel := match fldOpt j "sort_groups_by_label" with
            | some (Json.bool b) => b
-           | _ => false }
+           | _ => false,
+         rankOracle := ← match fldOpt j "rank_oracle" with
+           | some v => oracleJ v
+           | none => pure [] }
 
 /-- binary rows: `[n0, n1]` or `null` (NaN row) -/
 def binRowJ (j : Json) : R Row :=
@@ -77,6 +91,37 @@ def tolOf (j : Json) : Rat := match fldOpt j "tol" with
   | some (Json.str s) => (parseRat s).toOption.getD 0
   | _ => 1 / 1000000000
 
+/-- rank tests met by one search that rate ties leave open and the oracle does not answer -/
+def openTests (cfg : Cfg) (train : Table) (dev : Option (List (String × Row))) (combs : List (List (List String))) :
+    List (List (Option Rat) × List (Option Rat)) :=
+  match dev with
+  | none => []
+  | some d => combs.filterMap (fun c =>
+      let v := viability cfg train.rows dev c
+      if v.devTested && v.ranksDev && !v.ranksSure then
+        some ((grouper cfg train.rows c).map (fun p => rate p.2), (grouper cfg d c).map (fun p => rate p.2))
+      else none)
+
+/-- … over the whole two-stage search of one feature -/
+def unresolved (cfg : Cfg) (inp : Input) (tol : Rat) : List (List (Option Rat) × List (Option Rat)) :=
+  let combos := Comb.consecutiveCombinations inp.labels cfg.maxNMod
+  let s1 := openTests cfg inp.train1 inp.dev1 combos
+  let s2 := match search (candidates cfg inp.train1 inp.dev1 combos) tol with
+    | .best ws _ =>
+      if cfg.dropna && inp.hasNan then
+        ws.flatMap (fun w =>
+          let full := w.comb ++ [[inp.nanLabel]]
+          let t2 : Table := { rows := applyComb inp.train2.rows full, tie := inp.train2.tie }
+          let d2 := inp.dev2.map (fun d => applyComb d full)
+          openTests cfg t2 d2 (Comb.nanCombinations (w.comb.filterMap List.head?) inp.nanLabel cfg.maxNMod))
+      else []
+    | _ => []
+  (s1 ++ s2).eraseDups
+
+def optRatW : Option Rat → Json
+  | some q => Json.str (ratW q)
+  | none => Json.null
+
 /-- `carve`: the model's acceptable outcomes for one feature, and whether `impl` is one of them -/
 def carve (j : Json) : R Json := do
   let cfg ← cfgJ j
@@ -108,6 +153,8 @@ def carve (j : Json) : R Json := do
                ("results", listW (fun r => match r with
                   | some g => groupingW g
                   | none => Json.null) rs),
+               ("unresolved", listW (fun (p : List (Option Rat) × List (Option Rat)) =>
+                  Json.arr #[listW optRatW p.1, listW optRatW p.2]) (unresolved cfg inp (tolOf j))),
                ("impl_ok", boolW ok)])
 
 /-- `carve.candidates`: every stage-1 candidate with its measure and viability (diagnostics, C16) -/
